@@ -267,6 +267,25 @@ def _set_ctor(interp, st, args, kwargs):
     if items is not None:
         yield st, st.new_py('set', items)
         return
+    if isinstance(v, MapVal):
+        # image of a set under a pure function: {f(d) : d in S}
+        src, et = elems_of(interp, st, v.over)
+        d = sym.fresh(et, 'md')
+        sub = st.copy()
+        res = list(interp.call(sub, v.f, [d], {}))
+        if len(res) != 1 or isinstance(res[0][1], Raised) or res[0][0].events[len(st.events):] or res[0][0].pc[len(st.pc):]:
+            raise Unsupported('set(map(f, S)): f is not a pure total function')
+        img = res[0][1]
+        if not isinstance(img, SV):
+            raise Unsupported('set(map(f, S)): non-symbolic image')
+        R = z3.Const(sym.fresh_name('image'), z3.ArraySort(img.ty.sort(), z3.BoolSort()))
+        l = z3.Const(sym.fresh_name('l'), img.ty.sort())
+        st.assume(z3.ForAll([d.z], z3.Implies(z3.Select(src, d.z), z3.Select(R, img.z))))
+        st.assume(z3.ForAll([l], z3.Implies(z3.Select(R, l), z3.Exists([d.z], z3.And(z3.Select(src, d.z), img.z == l)))))
+        r = ops.new_heap(st, sym.SetC(img.ty))
+        st.heap.write(sym.SetC(img.ty), 'm', r.z, R)
+        yield st, r
+        return
     if isinstance(v, SV) and hasattr(v.ty, 'to_set'):
         yield st, v.ty.to_set(interp, st, v)
         return
